@@ -35,12 +35,8 @@ and every limit `L`, the result is the unlimited serialization when it fits, and
 error is `OutOfMemory` — wherever the limit is crossed (cons marker, length prefix or atom body). -/
 theorem limited_ser (t : Tree) (ht : t.atomsBelow (2 ^ 34)) (L : Nat) :
     nodeToBytesLimit t L =
-      if (serSpec t).length ≤ L then .ok (serSpec t) else .error .OutOfMemory := by
-  unfold nodeToBytesLimit
-  rw [nodeToStream_spec [t] _ (by simpa using ht)]
-  by_cases h : (serSpec t).length ≤ L
-  · simp [Writer.fits, Writer.adv, serList, h]
-  · simp [Writer.fits, serList, h]
+      if (serSpec t).length ≤ L then .ok (serSpec t) else .error .OutOfMemory :=
+  nodeToBytesLimit_spec t ht L
 
 /-- `node_to_bytes` is the limited serializer at the default limit declared in `ser.rs` -/
 theorem node_to_bytes_eq (t : Tree) (ht : t.atomsBelow (2 ^ 34)) :
